@@ -57,7 +57,7 @@ CLAIMED["C03"] = (
     "trusts the interpreter (60 lines) and httptest; handlers are closures of the shapes func(Context) and func(Context) result",
     "DESIGN.md section 4 C03")
 CLAIMED["C13"] = (
-    "rapid-generated operation histories on NewResponseWriter over a spy writer (WriteHeader/Write incl. short writes/Flush/Before hooks; GET/HEAD/POST; with and without http.Flusher), oracle = state-machine model compared after every step + invariants over the spy's call log",
+    "rapid-generated operation histories on NewResponseWriter over a spy writer (WriteHeader/Write incl. short writes/Flush/Before hooks; GET/HEAD/POST; with and without http.Flusher), oracle = state-machine model compared after every step + invariants over the spy's call log; second rapid check: responses of many 1..32 MiB writes into a writer that only counts, totals around 2^31 and 2^32 bytes, Size() == bytes forwarded",
     "Histories of 1..14 operations are applied to the real ResponseWriter wrapped around a spy; after every step Status/Written/Size and Write's results must equal a state-machine model written from the statement, the spy must have seen at most one status line and seen it first with the headers set by the hooks already present, hooks registered before the first write must have run exactly once in reverse order observing Status()==0, later hooks never.",
     "trusts the 40-line model; hooks do not write (precondition); status codes 100..999",
     "DESIGN.md section 4 C13")
